@@ -107,7 +107,12 @@ pub enum SpawnSpec {
         timeout: Option<(u32, bool)>,
     },
     /// spawn (optionally through the builder) and `register()` as the service of its kind
-    Register { builder: Option<Mailbox> },
+    Register {
+        builder: Option<Mailbox>,
+        /// a handler timeout configured on the builder (only with a builder)
+        #[serde(default)]
+        timeout: Option<(u32, bool)>,
+    },
 }
 
 impl SpawnSpec {
@@ -124,7 +129,7 @@ impl SpawnSpec {
         match self {
             SpawnSpec::Build { mailbox, .. } => *mailbox,
             SpawnSpec::Stream { builder: Some(m), .. } => *m,
-            SpawnSpec::Register { builder: Some(m) } => *m,
+            SpawnSpec::Register { builder: Some(m), .. } => *m,
             _ => Mailbox::Unbounded,
         }
     }
@@ -133,7 +138,7 @@ impl SpawnSpec {
         match self {
             SpawnSpec::Build { mailbox, .. } => Some(*mailbox),
             SpawnSpec::Stream { builder, .. } => *builder,
-            SpawnSpec::Register { builder } => *builder,
+            SpawnSpec::Register { builder, .. } => *builder,
             _ => None,
         }
     }
@@ -150,6 +155,7 @@ impl SpawnSpec {
     pub fn timeout(&self) -> Option<(u32, bool)> {
         match self {
             SpawnSpec::Build { timeout: Some(t), fail_on_timeout, .. } => Some((*t, *fail_on_timeout)),
+            SpawnSpec::Register { builder: Some(_), timeout: Some((t, f)) } => Some((*t, *f)),
             _ => None,
         }
     }
